@@ -1,9 +1,12 @@
 import Proofs.Blockwise.C05Wire
 /-! Two more open-loop facts (against *every* response sequence):
 
-* the size exponents of the Block2 requests never grow (`b2_pairwise_go`);
-* a run that yields a response has emitted the final Block1 request, unless the server itself ended
-  the upload early in one of two exactly described ways (`ok_upload_go`). -/
+* the size exponents of the Block2 options of the client's requests never grow (`b2_pairwise_go`):
+  the application's size hint on the requests of the Block1 phase, then the Block2 loop;
+* a run that yields a response has emitted the final Block1 request, unless the server itself
+  FAILED the upload early (unsuccessful code, in one of two exactly described shapes)
+  (`ok_upload_go`); a run that yields a SUCCESSFUL response has emitted it, or the result is a
+  single later response without Block2 option (`success_upload_go`). -/
 namespace Aiocoap.BwClient
 
 -- the Block2 requests ---------------------------------------------------------------------------
@@ -95,11 +98,12 @@ theorem b2_szx_go (cfg : Cfg) (t : Req) (rs : List Resp) :
         rw [this]
         exact Nat.le_trans (Nat.min_le_left _ _) hle
 
-/-- the outstanding request of the Block1 loop has no Block2 option; if it is a non-final block,
-the transfer is fragmented and bytes remain behind the block -/
+/-- the outstanding request of the Block1 loop carries the application's Block2 option (none, or
+the size hint); if it is a non-final block, the transfer is fragmented and bytes remain behind
+the block -/
 theorem b1_cur_facts {cfg : Cfg} {st : B1State} {cur : Req} (hinv : B1Inv cfg st)
     (hcur : nextRequest cfg st = some cur) :
-    cur.block2 = none ∧ ((sentBlock1 st cur).more = true →
+    cur.block2 = hintOpt cfg ∧ ((sentBlock1 st cur).more = true →
       cfg.payload.length > threshold cfg st.szx ∧
       st.cursor * blockSize st.szx + blockSize st.szx < cfg.payload.length) := by
   rw [nextRequest_eq hinv] at hcur
@@ -112,45 +116,171 @@ theorem b1_cur_facts {cfg : Cfg} {st : B1State} {cur : Req} (hinv : B1Inv cfg st
     subst hcur
     exact ⟨rfl, fun hsm => by simp [sentBlock1] at hsm⟩
 
-/-- **Against any response sequence the size exponents of the Block2 requests never grow.** -/
-theorem b2_pairwise_go {cfg : Cfg} {ph : Phase} (h : PhaseOk cfg ph) (rs : List Resp) :
-    List.Pairwise (fun x y : BlockOpt => y.szx ≤ x.szx) (b2Opts (go cfg ph rs).1) := by
+/-- what can follow a Block1 round, finer than `step_b1_cases`: an error, the loop goes on with
+the next block, or the upload phase ends with this response -/
+theorem step_b1_trichotomy (cfg : Cfg) (st : B1State) (cur : Req) (r : Resp) :
+    (∃ e, step cfg (.b1 st cur) r = .done (.error e)) ∨
+    ((sentBlock1 st cur).more = true ∧ ∃ t,
+      step cfg (.b1 st cur) r = enterB1 cfg { szx := (reduce t st.szx (st.cursor + 1)).1,
+                                               cursor := (reduce t st.szx (st.cursor + 1)).2 }) ∨
+    step cfg (.b1 st cur) r = completeBlock2 cfg cur r := by
+  cases ha : r.block1 with
+  | none =>
+    rw [step_b1_none ha]
+    split
+    · exact Or.inl ⟨_, rfl⟩
+    · split
+      · exact Or.inl ⟨_, rfl⟩
+      · exact Or.inr (Or.inr rfl)
+  | some a =>
+    rw [step_b1_some ha]
+    by_cases hnum : a.num ≠ (sentBlock1 st cur).num
+    · left; exact ⟨_, by rw [if_pos hnum]⟩
+    · simp only [hnum, ↓reduceIte]
+      by_cases hsm : (sentBlock1 st cur).more = true
+      · by_cases ham : a.more = true
+        · right; left; exact ⟨hsm, a.szx, by simp [hsm, ham]⟩
+        · by_cases hsucc : isSuccessful r.code = true
+          · right; left; exact ⟨hsm, a.szx, by simp [hsm, ham, hsucc]⟩
+          · right; right
+            simp [hsm, ham, hsucc]
+      · simp only [hsm, Bool.not_false, ↓reduceIte]
+        split
+        · exact Or.inl ⟨_, rfl⟩
+        · exact Or.inr (Or.inr rfl)
+
+/-- the first response ends the transfer, or it is a first block that is not larger than what the
+request asked for (if it asked) and the Block2 loop starts with it -/
+theorem completeBlock2_cases (cfg : Cfg) (t : Req) (r : Resp) :
+    (∃ o, completeBlock2 cfg t r = .done o) ∨
+    (∃ b2, r.block2 = some b2 ∧ szxGrows t b2 = false ∧
+      completeBlock2 cfg t r
+        = enterB2 cfg t { code := r.code, etag := r.etag, payload := r.payload, block2 := b2 }) := by
+  cases hb : r.block2 with
+  | none => left; exact ⟨_, completeBlock2_none hb⟩
+  | some b2 =>
+    rw [completeBlock2_some hb]
+    by_cases hst : b2.start ≠ 0
+    · left; exact ⟨_, by rw [if_pos hst]⟩
+    rw [if_neg hst]
+    by_cases hg : szxGrows t b2 = true
+    · left; exact ⟨_, by rw [if_pos hg]⟩
+    rw [if_neg hg]
+    have hg' : szxGrows t b2 = false := by simpa using hg
+    repeat' split
+    all_goals first | exact Or.inl ⟨_, rfl⟩ | exact Or.inr ⟨b2, rfl, hg', rfl⟩
+
+def Phase.isB1 : Phase → Prop
+  | .b1 _ _ => True
+  | _ => False
+
+/-- **Against any response sequence the size exponents of the Block2 options of the client's
+requests never grow** -- and while the Block1 phase lasts none of those still to come exceeds the
+application's size hint (which the requests of the Block1 phase carry). -/
+theorem b2_pairwise_bound_go {cfg : Cfg} {ph : Phase} (h : PhaseOk cfg ph) (rs : List Resp) :
+    List.Pairwise (fun x y : BlockOpt => y.szx ≤ x.szx) (b2Opts (go cfg ph rs).1) ∧
+    (ph.isB1 → ∀ q, hintOpt cfg = some q → ∀ b ∈ b2Opts (go cfg ph rs).1, b.szx ≤ q.szx) := by
   induction rs generalizing ph with
   | nil =>
     rw [go_nil]
     cases ph with
-    | done o => simp [Phase.outstanding, b2Opts]
+    | done o => simp [Phase.outstanding, b2Opts, Phase.isB1]
     | b1 st cur =>
-      simp only [Phase.outstanding, Option.toList_some, b2Opts_cons_none (b1_cur_facts h.1 h.2).1]
-      simp [b2Opts]
+      have hc := (b1_cur_facts h.1 h.2).1
+      simp only [Phase.outstanding, Option.toList_some]
+      cases hh : hintOpt cfg with
+      | none =>
+        rw [hh] at hc
+        rw [b2Opts_cons_none hc]
+        simp [b2Opts]
+      | some q =>
+        rw [hh] at hc
+        rw [b2Opts_cons_some hc]
+        simp [b2Opts]
     | b2 t a cur =>
       simp only [Phase.outstanding, Option.toList_some,
         b2Opts_cons_some (nextBlock2Request_block2 h.2)]
-      simp [b2Opts]
+      simp [b2Opts, Phase.isB1]
   | cons r rs ih =>
     cases ph with
-    | done o => simp [b2Opts]
-    | b2 t a cur => exact (b2_szx_go cfg t (r :: rs) a cur _ (nextBlock2Request_block2 h.2)).1
+    | done o => simp [b2Opts, Phase.isB1]
+    | b2 t a cur =>
+      exact ⟨(b2_szx_go cfg t (r :: rs) a cur _ (nextBlock2Request_block2 h.2)).1,
+        fun hb => absurd hb (by simp [Phase.isB1])⟩
     | b1 st cur =>
+      obtain ⟨hc, hfacts⟩ := b1_cur_facts h.1 h.2
+      have hok' := PhaseOk.step (ph := .b1 st cur) h r
+      obtain ⟨ihp, ihb⟩ := ih hok'
+      -- everything that follows stays below the hint
+      have hbound : ∀ q, hintOpt cfg = some q →
+          ∀ b ∈ b2Opts (go cfg (step cfg (.b1 st cur) r) rs).1, b.szx ≤ q.szx := by
+        intro q hq
+        rcases step_b1_trichotomy cfg st cur r with ⟨e, he⟩ | ⟨hsm, t, ht⟩ | hcomp
+        · rw [he]; simp [b2Opts]
+        · obtain ⟨hf, hmore⟩ := hfacts hsm
+          obtain ⟨cur', _, hc2⟩ := enterB1_of_inv (B1Inv.next h.1 hf hmore t)
+          rw [ht, hc2] at ihb ⊢
+          exact ihb trivial q hq
+        · rw [hcomp]
+          rcases completeBlock2_cases cfg cur r with ⟨o, ho⟩ | ⟨b2, _, hg, hstep⟩
+          · rw [ho]; simp [b2Opts]
+          · rw [hstep]
+            have hle : b2.szx ≤ q.szx := by
+              unfold szxGrows at hg
+              rw [hc, hq] at hg
+              simpa using hg
+            rcases enterB2_cases cfg cur
+                { code := r.code, etag := r.etag, payload := r.payload, block2 := b2 } with
+              he | ⟨cur', he, hq'⟩
+            · rw [he]; simp [b2Opts]
+            · rw [he]
+              intro b hb
+              have h2 := (b2_szx_go cfg cur rs _ cur' _ hq').2 b hb
+              refine Nat.le_trans h2 ?_
+              rw [BlockOpt.reducedTo_szx]
+              exact Nat.le_trans (Nat.min_le_left _ _) hle
       rw [go_cons]
-      simp only [Phase.outstanding, Option.toList_some, List.cons_append, List.nil_append,
-        b2Opts_cons_none (b1_cur_facts h.1 h.2).1]
-      exact ih (PhaseOk.step (ph := .b1 st cur) h r)
+      simp only [Phase.outstanding, Option.toList_some, List.cons_append, List.nil_append]
+      cases hh : hintOpt cfg with
+      | none =>
+        rw [hh] at hc
+        rw [b2Opts_cons_none hc]
+        exact ⟨ihp, fun _ q hq => by cases hq⟩
+      | some q =>
+        rw [hh] at hc
+        rw [b2Opts_cons_some hc]
+        refine ⟨List.pairwise_cons.mpr ⟨fun b hb => hbound q hh b hb, ihp⟩, ?_⟩
+        intro _ q' hq' b hb
+        cases hq'
+        rcases List.mem_cons.mp hb with rfl | hb
+        · exact Nat.le_refl _
+        · exact hbound q hh b hb
+
+theorem b2_pairwise_go {cfg : Cfg} {ph : Phase} (h : PhaseOk cfg ph) (rs : List Resp) :
+    List.Pairwise (fun x y : BlockOpt => y.szx ≤ x.szx) (b2Opts (go cfg ph rs).1) :=
+  (b2_pairwise_bound_go h rs).1
 
 -- a response implies a complete upload, with two exceptions made by the server --------------------
 
 /-- The two ways in which a SERVER ends an upload although the block it answers is not the final
-one (`BlockwiseRequest._run`, protocol.py:959-974 and 1033-1036):
+one (`BlockwiseRequest._run`, protocol.py:959-982 and 1042-1045) -- both are FAILURES of the
+request, the code is unsuccessful:
 
-* `ignoredBlock1`: its response carries no Block1 option at all and another code than 2.31 — it
-  answered the block as if it were a whole request ("Block1 option completely ignored by server,
-  assuming it knows what it is doing"; also an error response without the option, e.g. 4.13 / 4.08);
+* `ignoredBlock1`: its response carries no Block1 option at all and an unsuccessful code (4.13,
+  4.08, 5.00 … answered to the block as if it were a whole request). After the fix a SUCCESSFUL
+  code without the option to a non-final block is a protocol error (`Misbehaves.successWithoutBlock1`);
 * `failed`: it acknowledged the block with the more flag cleared and an unsuccessful code
   (RFC 7959 2.9: 4.08, 4.13 … ends the transfer). -/
 inductive EndsUploadEarly (r : Resp) : Prop
-  | ignoredBlock1 : r.block1 = none → r.code ≠ codeContinue → EndsUploadEarly r
+  | ignoredBlock1 : r.block1 = none → isSuccessful r.code = false → EndsUploadEarly r
   | failed {a : BlockOpt} : r.block1 = some a → a.more = false → isSuccessful r.code = false →
       EndsUploadEarly r
+
+theorem EndsUploadEarly.unsuccessful {r : Resp} (h : EndsUploadEarly r) :
+    isSuccessful r.code = false := by
+  cases h with
+  | ignoredBlock1 _ h => exact h
+  | failed _ _ h => exact h
 
 theorem finalReq_of_sent {st : B1State} {cur : Req} (h : (sentBlock1 st cur).more = false) :
     FinalReq cur := by
@@ -159,13 +289,13 @@ theorem finalReq_of_sent {st : B1State} {cur : Req} (h : (sentBlock1 st cur).mor
   | none => exact Or.inl hc
   | some b => rw [hc] at h; exact Or.inr ⟨b, hc, h⟩
 
-theorem mem_b1Reqs_cons {cur : Req} (h : cur.block2 = none) (rest : List Req) :
+theorem mem_b1Reqs_cons {cfg : Cfg} {cur : Req} (h : cur.block2 = hintOpt cfg) (rest : List Req) :
     b1Reqs (cur :: rest) = cur :: b1Reqs rest := by
-  simp [b1Reqs, h]
+  simp [b1Reqs, isB1Phase_hint cfg h]
 
 /-- **A response implies that the final Block1 request was emitted** — or the upload was ended by
 the server: the response `e` to a non-final block had one of the two shapes of `EndsUploadEarly`
-and the client went on with it as the (first block of the) result. -/
+(an unsuccessful code) and the client went on with it as the (first block of the) result. -/
 theorem ok_upload_go {cfg : Cfg} (rs : List Resp) :
     ∀ {st : B1State} {cur : Req}, B1Inv cfg st → nextRequest cfg st = some cur →
     ∀ o, (go cfg (.b1 st cur) rs).2 = .ok o →
@@ -207,11 +337,13 @@ theorem ok_upload_go {cfg : Cfg} (rs : List Resp) :
           exact hph
       cases ha : r.block1 with
       | none =>
-        by_cases hc : r.code = codeContinue
-        · rw [step_b1_none_continue ha hc] at hok
+        by_cases hsucc : isSuccessful r.code = true
+        · rw [step_b1_none_success ha hsucc hsm] at hok
           simp at hok
-        · right
-          exact ⟨[], r, rs, st, cur, rfl, rfl, hsm, .ignoredBlock1 ha hc, step_b1_none_final ha hc⟩
+        · have hsucc' : isSuccessful r.code = false := by simpa using hsucc
+          right
+          exact ⟨[], r, rs, st, cur, rfl, rfl, hsm, .ignoredBlock1 ha hsucc',
+            step_b1_none_failed ha hsucc'⟩
       | some a =>
         have hst := step_b1_some (cfg := cfg) (st := st) (cur := cur) ha
         by_cases hnum : a.num ≠ (sentBlock1 st cur).num
@@ -231,5 +363,99 @@ theorem ok_upload_go {cfg : Cfg} (rs : List Resp) :
                 .failed ha (by simpa using ham) (by simpa using hsucc), hst⟩
     · left
       exact ⟨cur, List.mem_cons_self, finalReq_of_sent (by simpa using hsm)⟩
+
+-- a SUCCESSFUL response implies a complete upload -------------------------------------------------
+
+/-- how a round of the Block2 loop can end -/
+theorem step_b2_tetrachotomy (cfg : Cfg) (t : Req) (a : Asm) (cur : Req) (r : Resp) :
+    (∃ e, step cfg (.b2 t a cur) r = .done (.error e)) ∨
+    (r.block2 = none ∧ step cfg (.b2 t a cur) r = .done (.ok (bodyOf r))) ∨
+    (∃ pl, step cfg (.b2 t a cur) r = .done (.ok { code := a.code, etag := a.etag, payload := pl })) ∨
+    (∃ b2, step cfg (.b2 t a cur) r
+        = enterB2 cfg t { a with payload := a.payload ++ r.payload, block2 := b2 }) := by
+  cases hb : r.block2 with
+  | none => right; left; exact ⟨rfl, step_b2_none hb⟩
+  | some b2 =>
+    rw [step_b2_some hb]
+    repeat' split
+    all_goals first
+      | exact Or.inl ⟨_, rfl⟩
+      | exact Or.inr (Or.inr (Or.inl ⟨_, rfl⟩))
+      | exact Or.inr (Or.inr (Or.inr ⟨b2, rfl⟩))
+
+/-- the Block2 loop keeps the code of the first block: what it returns has that code, or is one
+later response that came without a Block2 option (returned alone) -/
+theorem b2_ok_code (cfg : Cfg) (t : Req) (rs : List Resp) :
+    ∀ (a : Asm) (cur : Req) (o : Body), (go cfg (.b2 t a cur) rs).2 = .ok o →
+      o.code = a.code ∨ SingleResponse rs o := by
+  induction rs with
+  | nil => intro a cur o h; simp [go] at h
+  | cons r rs ih =>
+    intro a cur o h
+    rw [go_cons] at h
+    simp only at h
+    rcases step_b2_tetrachotomy cfg t a cur r with ⟨e, he⟩ | ⟨hn, he⟩ | ⟨pl, he⟩ | ⟨b2, he⟩
+    · rw [he] at h; simp at h
+    · rw [he] at h
+      simp only [go_done, Outcome.ok.injEq] at h
+      exact Or.inr ⟨r, List.mem_cons_self, hn, h.symm⟩
+    · rw [he] at h
+      simp only [go_done, Outcome.ok.injEq] at h
+      left; rw [← h]
+    · rw [he] at h
+      unfold enterB2 at h
+      split at h
+      · simp at h
+      · rcases ih _ _ o h with h' | h'
+        · exact Or.inl h'
+        · exact Or.inr (h'.cons r)
+
+theorem completeBlock2_ok_code (cfg : Cfg) (t : Req) (e : Resp) (rs : List Resp) (o : Body)
+    (h : (go cfg (completeBlock2 cfg t e) rs).2 = .ok o) : o.code = e.code ∨ SingleResponse rs o := by
+  cases hb : e.block2 with
+  | none =>
+    rw [completeBlock2_none hb] at h
+    simp only [go_done, Outcome.ok.injEq] at h
+    left; rw [← h]; rfl
+  | some b =>
+    rw [completeBlock2_some hb] at h
+    by_cases hst : b.start ≠ 0
+    · simp [hst] at h
+    rw [if_neg hst] at h
+    by_cases hg : szxGrows t b = true
+    · simp [hg] at h
+    rw [if_neg hg] at h
+    by_cases hm : b.more = true
+    · by_cases hn : b.num ≠ 0
+      · simp [hm, hn] at h
+      · by_cases hv : b.validFor e.payload.length = true
+        · simp only [hm, Bool.not_true, Bool.false_eq_true, ↓reduceIte, hn, hv] at h
+          unfold enterB2 at h
+          split at h
+          · simp at h
+          · exact b2_ok_code cfg t rs _ _ o h
+        · simp [hm, hn, hv] at h
+    · simp only [hm, Bool.not_false, ↓reduceIte, go_done, Outcome.ok.injEq] at h
+      left; rw [← h]; rfl
+
+/-- a first response whose Block2 option (if any) lacks the more flag is the result as it came, or
+an error -/
+theorem completeBlock2_nomore (cfg : Cfg) (t : Req) (r : Resp)
+    (h : ∀ b, r.block2 = some b → b.more = false) :
+    completeBlock2 cfg t r = .done (.ok (bodyOf r)) ∨
+    ∃ e, completeBlock2 cfg t r = .done (.error e) := by
+  cases hb : r.block2 with
+  | none => left; exact completeBlock2_none hb
+  | some b =>
+    rw [completeBlock2_some hb]
+    have hm := h b hb
+    by_cases hst : b.start ≠ 0
+    · right; exact ⟨_, by rw [if_pos hst]⟩
+    rw [if_neg hst]
+    by_cases hg : szxGrows t b = true
+    · right; exact ⟨_, by rw [if_pos hg]⟩
+    rw [if_neg hg]
+    left
+    simp [hm]
 
 end Aiocoap.BwClient
